@@ -786,3 +786,13 @@ def wide_program(rng):
     return {"sig": sig, "rules": rules}
 
 
+
+
+def thenless_rule(rng, sig):
+    """A rule without any `then` statement (accepted by eqlog; its rule module has no routines)."""
+    preds = [i for i, r in enumerate(sig["rels"]) if not r["func"] and r["cols"]]
+    if not preds:
+        return None
+    p = rng.choice(preds)
+    vs = [("var", k) for k in range(len(sig["rels"][p]["cols"]))]
+    return [("if", ("pred", p, vs)), ("if", ("pred", p, vs))]
